@@ -15,6 +15,8 @@ Definition run_case (c : sexp) : sexp :=
     sexp_of_res (fun g => [sexp_of_fcall g]) (dec_fcall (get_bytes (arg c 0)))
   else if head_is c "decdir" then
     sexp_of_res (fun x => [SList (map sexp_of_fval (fst x)); snat (len (snd x))]) (decode_dir (get_bytes (arg c 0)))
+  else if head_is c "decdir-stream" then
+    sexp_of_res (fun x => [SList (map sexp_of_fval (fst x)); snat (len (snd x))]) (decode_dir_stream (get_bytes (arg c 0)))
   else if head_is c "encdir" then
     SBytes (enc_dir (map fval_of_sexp (get_list (arg c 0))))
   else if head_is c "alloc" then
